@@ -98,6 +98,9 @@ std::string gen_key(sim::Rng& r, const GenOpts& o);
 // object with 8..16 distinct keys that mix scripts, lengths and shared prefixes (what a lookup map has to order): long UTF-8,
 // long ASCII, short, keys equal up to an embedded NUL, prefixes of one long key, keys one byte (high bit / low bit) apart
 JVal gen_mixed_key_object(sim::Rng& r, const GenOpts& o);
+// value with as many nodes per text byte as JSON allows (one-character elements, empty containers, one-character distinct keys):
+// every buffer a parser sizes from the text length is at its tightest. Element counts sit around 16/32/64/128/.../4096.
+JVal gen_dense_value(sim::Rng& r);
 std::string gen_string(sim::Rng& r, const GenOpts& o);
 JVal gen_scalar(sim::Rng& r, const GenOpts& o);
 uint64_t gen_double_bits(sim::Rng& r, bool allow_nonfinite);
